@@ -31,26 +31,27 @@ Span(a, n) == a..(a + n - 1)
 
 -----------------------------------------------------------------------------
 (* Layout: where every statement's bytes go                                 *)
-L0 == [pc |-> 0, code |-> {}, hidden |-> {}, data |-> {}, copies |-> {}, labels |-> {}]
+\* total: number of bytes the statements write (with multiplicity)
+L0 == [pc |-> 0, code |-> {}, hidden |-> {}, data |-> {}, copies |-> {}, labels |-> {}, total |-> 0]
 
 Step(st, s, bpa) ==
   CASE s.k = "org"   -> [st EXCEPT !.pc = s.n]
     [] s.k = "label" -> [st EXCEPT !.labels = @ \cup {<<s.name, st.pc \div bpa>>}]
-    [] s.k = "insn"  -> [st EXCEPT !.pc = @ + s.n, !.code = @ \cup {<<st.pc, s.n>>}]
-    [] s.k = "data"  -> [st EXCEPT !.pc = @ + s.n, !.data = @ \cup {<<st.pc, s.n>>}]
+    [] s.k = "insn"  -> [st EXCEPT !.pc = @ + s.n, !.code = @ \cup {<<st.pc, s.n>>}, !.total = @ + s.n]
+    [] s.k = "data"  -> [st EXCEPT !.pc = @ + s.n, !.data = @ \cup {<<st.pc, s.n>>}, !.total = @ + s.n]
     [] s.k = "res"   -> [st EXCEPT !.pc = @ + s.n]
-    [] s.k = "macro" -> [st EXCEPT !.pc = @ + s.n + s.m,
+    [] s.k = "macro" -> [st EXCEPT !.pc = @ + s.n + s.m, !.total = @ + s.n + s.m,
                                    !.code = @ \cup {<<st.pc, s.n>>, <<st.pc + s.n, s.m>>}]
     [] s.k = "rep"   -> \* s.c copies of: insn(n) [insn(m)] [.db(d)]; copies of data are data
                         \* (parse_repeat keeps the DL_DATA marker)
                         LET sz == s.n + s.m + s.d
                             base(i) == st.pc + (i - 1) * sz
                             insns(i) == {<<base(i), s.n>>} \cup (IF s.m > 0 THEN {<<base(i) + s.n, s.m>>} ELSE {}) IN
-                        [st EXCEPT !.pc = @ + sz * s.c,
+                        [st EXCEPT !.pc = @ + sz * s.c, !.total = @ + sz * s.c,
                                    !.code = @ \cup {x \in UNION {insns(i) : i \in 1..s.c} : x[2] > 0},
                                    !.copies = @ \cup {x \in UNION {insns(i) : i \in 2..s.c} : x[2] > 0},
                                    !.data = IF s.d > 0 THEN @ \cup {<<base(i) + s.n + s.m, s.d>> : i \in 1..s.c} ELSE @]
-    [] s.k = "inc"   -> [st EXCEPT !.pc = @ + s.n + s.m,
+    [] s.k = "inc"   -> [st EXCEPT !.pc = @ + s.n + s.m, !.total = @ + s.n + s.m,
                                    !.code = IF s.listed THEN @ \cup {<<st.pc, s.n>>} ELSE @,
                                    !.hidden = IF s.listed THEN @ ELSE @ \cup {<<st.pc, s.n>>},
                                    !.data = IF s.m > 0 THEN @ \cup {<<st.pc + s.n, s.m>>} ELSE @]
@@ -65,9 +66,7 @@ Layout(stmts, bpa) == LayoutFrom(stmts, 1, L0, bpa)
 Addrs(spans) == UNION {Span(sp[1], sp[2]) : sp \in spans}
 Written(lay) == Addrs(lay.code) \cup Addrs(lay.hidden) \cup Addrs(lay.data)
 \* a program this model can speak about: nothing is written twice
-Disjoint(lay) ==
-  LET all == ({"c"} \X lay.code) \cup ({"h"} \X lay.hidden) \cup ({"d"} \X lay.data) IN
-  \A x, y \in all : x # y => Span(x[2][1], x[2][2]) \cap Span(y[2][1], y[2][2]) = {}
+Disjoint(lay) == lay.total = Cardinality(Written(lay))
 
 -----------------------------------------------------------------------------
 (* The data-section dump of main(): walks i = low..high; a byte marked      *)
